@@ -70,8 +70,9 @@ static void g_case(uint64_t idx, void *ctx)
     char shape[120]; snprintf(shape, sizeof shape, "%s, runtime %s its level, silent %s", p->gate == G_DLEVEL || p->gate == G_DPRINTFN || p->gate == G_LIB ? (BUILD >= p->level ? "build at or above its level" : "build below its level") : (BUILD >= 1 ? "debugging compiled in" : "debugging compiled out"),
                           level >= p->level ? "at or above" : "below", silent ? "on" : "off");
     mc_set_shape(shape);
-    /* silence is only specified for the three output primitives; the macro families are probed with output enabled */
-    if (silent && p->gate != G_PRIM) return;
+    /* silence is only specified for the three output primitives: under silence the macro families are checked for argument
+     * evaluation, control flow, return value and fatality (all independent of silence), not for what reaches stderr */
+    int check_out = !silent || p->gate == G_PRIM;
     int rp[2], ep[2]; if (pipe(rp) || pipe(ep)) return;
     fflush(NULL);
     pid_t pid = fork();
@@ -113,18 +114,18 @@ static void g_case(uint64_t idx, void *ctx)
     }
     const char *site = p->name;
     if (WIFSIGNALED(st)) { FAIL(site, "crash:signal", shape, "the probe ended with signal %d", WTERMSIG(st)); return; }
-    if (want_fatal) { if (!fatal) FAIL(site, "model:not-fatal", shape, "expected the fatal-error exit (255), got status 0x%x", st); else if (!strstr(err, "ASSERT failed")) FAIL(site, "model:fatal-without-diagnostic", shape, "fatal exit without the ASSERT diagnostic"); }
+    if (want_fatal) { if (!fatal) FAIL(site, "model:not-fatal", shape, "expected the fatal-error exit (255), got status 0x%x", st); else if (check_out && !strstr(err, "ASSERT failed")) FAIL(site, "model:fatal-without-diagnostic", shape, "fatal exit without the ASSERT diagnostic"); }
     else if (!exited0) FAIL(site, "model:unexpected-exit", shape, "the probe ended the process (status 0x%x) where it should return", st);
     else {
         if (p->gate != G_LIB && (r.bumps != 0) != want_eval) FAIL(site, "model:argument-evaluation", shape, "arguments/condition were %sevaluated (%d side effects), expected %s", r.bumps ? "" : "not ", r.bumps, want_eval ? "evaluation" : "none");
-        if ((total > 0) != want_out) FAIL(site, want_out ? "model:no-output" : "model:unexpected-output", shape, "%ld bytes written to stderr, expected %s: %.120s", total, want_out ? "output" : "silence", err);
+        if (check_out && (total > 0) != want_out) FAIL(site, want_out ? "model:no-output" : "model:unexpected-output", shape, "%ld bytes written to stderr, expected %s: %.120s", total, want_out ? "output" : "silence", err);
         if (p->gate >= G_ASSERT_T && p->gate <= G_REQUIRE_RVAL_F) {
             if (r.continued != want_cont) FAIL(site, "model:control-flow", shape, "the function %s after the statement, expected it to %s", r.continued ? "continued" : "returned", want_cont ? "continue" : "return");
             if (want_ret >= 0 && r.ret != want_ret) FAIL(site, "model:return-value", shape, "returned %d, expected %d", r.ret, want_ret);
         }
     }
     mc_nontrivial();
-    mc_outcome((uint64_t) (total > 0) * 8 + (uint64_t) (r.bumps != 0) * 4 + (uint64_t) fatal * 2 + (uint64_t) r.continued + (uint64_t) (p->gate * 16));
+    mc_outcome((uint64_t) (check_out && total > 0) * 8 + (uint64_t) (r.bumps != 0) * 4 + (uint64_t) fatal * 2 + (uint64_t) r.continued + (uint64_t) (p->gate * 16));
 }
 int main(int argc, char **argv)
 {
